@@ -893,12 +893,20 @@ func ruleResetReleases() check.Rule {
 				rinfo := m.Obj.Ro.TypesInfo
 				rv := recvObj(rinfo, fd)
 				okAdd := false
+				var addCall, subscribeCall *ast.CallExpr
 				ast.Inspect(fd.Body, func(x ast.Node) bool {
 					call, ok := x.(*ast.CallExpr)
-					if !ok || len(call.Args) != 1 {
+					if !ok {
+						return true
+					}
+					if name, isObs := m.Obj.ObservableMethods[model.Callee(rinfo, call)]; isObs && name == "SubscribeWithContext" {
+						subscribeCall = call
+					}
+					if len(call.Args) != 1 {
 						return true
 					}
 					if name, isSub := m.Obj.SubscriptionMethods[model.Callee(rinfo, call)]; isSub && name == "Add" {
+						addCall = call
 						if lit, ok := ast.Unparen(call.Args[0]).(*ast.FuncLit); ok {
 							ast.Inspect(lit.Body, func(y ast.Node) bool {
 								if as, ok := y.(*ast.AssignStmt); ok {
@@ -914,7 +922,9 @@ func ruleResetReleases() check.Rule {
 					}
 					return true
 				})
-				if okAdd {
+				if okAdd && subscribeCall != nil && addCall != nil && !pathsPassAfter(fd.Body, subscribeCall, func(nd ast.Node) bool { return nd.Pos() <= addCall.Pos() && addCall.End() <= nd.End() }) {
+					c.Violation("ro.connectableObservableImpl.ConnectWithContext/reset-on-disconnect", addCall.Pos(), "after the source has been subscribed some path returns without registering the teardown that installs a fresh subject: for a source that terminates synchronously the old (terminated) subject is kept, and the next Connect feeds a dead subject")
+				} else if okAdd {
 					c.OK("ro.connectableObservableImpl.ConnectWithContext/reset-on-disconnect", fd.Pos(), "a teardown that installs a fresh subject is registered on the connection")
 				} else {
 					c.Violation("ro.connectableObservableImpl.ConnectWithContext/reset-on-disconnect", fd.Pos(), "no teardown that installs a fresh subject is registered on the connection: ResetOnDisconnect has no effect and a re-connection replays into the old subject")
